@@ -75,6 +75,13 @@ def build(x, H):
         return H.tags.meta(charset="latin1")
     if k == "tfyd":      # a tagifiable object whose expansion carries a dependency
         return gamma.Tfy(lambda: H.TagList(H.tags.div("e"), mk_dep("d4", H)))
+    if k == "void":      # a void element that carries dependencies (they are children like any other)
+        return H.tags.input(mk_dep("d3", H), mk_dep("hc", H), type="range")
+    if k == "voidonly":  # ... a dependency that occurs nowhere else
+        return H.tags.img(H.HTMLDependency("onvoid", "0.5", source={"href": "h://v"}, script={"src": "v.js"}), alt="a")
+    if k == "tfyhead":   # a component that hands back the SAME <head> tag object every time it is asked
+        cached = H.tags.head(H.tags.title("cached"), mk_dep("d2", H))
+        return gamma.Tfy(lambda: cached)
     if k == "tfyt":      # ... expanding to a single tag with head_content inside
         return gamma.Tfy(lambda: H.Tag("section", "s", mk_dep("hc2", H), mk_dep("d1", H)))
     return mk_dep(k, H)
@@ -118,10 +125,10 @@ class C11(Prop):
     def gens_random(self, tier, rnd):
         gens = []
         kinds = ["html", "head", "body", "div", "span", "text", "d0", "d6", "d1", "d2", "d3", "d4", "d5", "hc", "hc2", "section",
-                 "tfyd", "tfyt", "metacs"]
+                 "tfyd", "tfyt", "metacs", "void", "voidonly"]
 
         def node(depth):
-            k = rnd.choice(kinds if depth < 4 else ["text", "d1", "d3", "hc", "d4", "tfyd", "metacs"])
+            k = rnd.choice(kinds if depth < 4 else ["text", "d1", "d3", "hc", "d4", "tfyd", "metacs", "void", "voidonly"])
             c = []
             if k in ("html", "head", "body", "div", "span", "section"):
                 c = [node(depth + 1) for _ in range(rnd.randint(0, 3))]
@@ -139,13 +146,25 @@ class C11(Prop):
                                [["data-level", 0], ["lang", ""]], [["lang", ""], ["data-n", 0.0], ["id", "z"]]])
             gens.append({"kind": "doc", "tree": {"k": "root", "c": top}, "args": args,
                          "prefix": rnd.choice(["lib", None, "a/b", "x"]), "inclver": rnd.random() < 0.5, "later": rnd.random() < 0.3,
-                         "prerender": rnd.random() < 0.5})
+                         "prerender": rnd.random() < 0.5, "twice": rnd.random() < 0.3})
         leaf = lambda k: {"k": k, "c": []}
         # documents whose dependencies emit no markup at all: the listing must still name them
         for deps in (["d0"], ["d6"], ["d0", "d6"], ["d0", "d1"]):
             for top in ("html", "body", "div"):
                 gens.append({"kind": "doc", "tree": {"k": "root", "c": [{"k": top, "c": [leaf("text")] + [leaf(d) for d in deps]}]},
                              "args": [], "prefix": "lib", "inclver": False, "later": False})
+        # a lone <html> whose head comes out of a component that returns one cached tag object, rendered once and twice
+        for twice in (False, True):
+            for sibs in (["tfyhead", "body"], ["div", "tfyhead", "d1"], ["tfyhead"]):
+                gens.append({"kind": "doc", "tree": {"k": "root", "c": [{"k": "html", "c": [leaf(s) for s in sibs]}]},
+                             "args": [["lang", "en"]], "prefix": "lib", "inclver": True, "later": False, "twice": twice})
+        # top-level dependencies next to the caller's lone <body> / <html>
+        for top in ("body", "html"):
+            for deps in (["d1"], ["d4", "hc"], ["d5", "d0"]):
+                for where in (0, 1):
+                    c = [leaf(d) for d in deps]
+                    c.insert(where * len(c), {"k": top, "c": [leaf("text"), leaf("d4")]})
+                    gens.append({"kind": "doc", "tree": {"k": "root", "c": c}, "args": [], "prefix": "lib", "inclver": True, "later": False})
         for headkids in (["metacs"], ["text", "metacs", "d1"], ["d3", "metacs", "hc"], ["tfyd"], ["section", "tfyt"]):
             for pos in (0, 1, 2):
                 sibs = [leaf("div"), {"k": "body", "c": [leaf("text"), leaf("tfyd")]}]
@@ -171,6 +190,8 @@ class C11(Prop):
                 doc.append(*kids)
         else:
             doc = H.HTMLDocument(*kids, **kw)
+        if g.get("twice"):
+            doc.render(lib_prefix=g["prefix"], include_version=g["inclver"])      # the second render is the one judged
         res = doc.render(lib_prefix=g["prefix"], include_version=g["inclver"])
         out = res["html"]
         return {"content": abstract_all(kids, H),
